@@ -131,7 +131,7 @@ func runPlan(t *rapid.T, st *verifkit.Stats, p plan) {
 	}
 	defer cancel()
 	release := make(chan struct{})
-	var userFns sync.WaitGroup // every user-supplied function invocation (and the harness producer)
+	prodDone := make(chan struct{}) // closed when the caller-side producer of MapReduceChan has finished
 	var inMapper, maxMapper int32
 	var inFlightAtFault int32
 	var panicRaised int32 // set just before a user function panics
@@ -173,8 +173,6 @@ func runPlan(t *rapid.T, st *verifkit.Stats, p plan) {
 		}
 	}
 	generate := func(src chan<- int) {
-		userFns.Add(1)
-		defer userFns.Done()
 		for i := 0; i < p.nItems; i++ {
 			if i == p.genPanicAt {
 				atomic.StoreInt32(&panicRaised, 1)
@@ -188,8 +186,6 @@ func runPlan(t *rapid.T, st *verifkit.Stats, p plan) {
 		}
 	}
 	mapper := func(item int, w mr.Writer[int], cancelFn func(error)) {
-		userFns.Add(1)
-		defer userFns.Done()
 		c := atomic.AddInt32(&inMapper, 1)
 		for {
 			m := atomic.LoadInt32(&maxMapper)
@@ -271,8 +267,6 @@ func runPlan(t *rapid.T, st *verifkit.Stats, p plan) {
 		return p.redFault.kind != "nooutput"
 	}
 	reducer := func(pipe <-chan int, w mr.Writer[int], cancelFn func(error)) {
-		userFns.Add(1)
-		defer userFns.Done()
 		if reducerBody(pipe, cancelFn) {
 			mu.Lock()
 			n := len(reduced)
@@ -281,8 +275,6 @@ func runPlan(t *rapid.T, st *verifkit.Stats, p plan) {
 		}
 	}
 	voidReducer := func(pipe <-chan int, cancelFn func(error)) {
-		userFns.Add(1)
-		defer userFns.Done()
 		reducerBody(pipe, cancelFn)
 	}
 	resCh := make(chan outcome, 1)
@@ -301,9 +293,8 @@ func runPlan(t *rapid.T, st *verifkit.Stats, p plan) {
 			o.err = mr.MapReduceVoid(generate, mapper, voidReducer, opts...)
 		case "MapReduceChan":
 			src := make(chan int)
-			userFns.Add(1)
 			go func() {
-				defer userFns.Done()
+				defer close(prodDone)
 				for i := 0; i < p.nItems; i++ {
 					src <- i
 				}
@@ -347,24 +338,25 @@ func runPlan(t *rapid.T, st *verifkit.Stats, p plan) {
 	if !released {
 		close(release)
 	}
-	// all user functions must be able to finish (the library may not leave a writer or the
-	// caller's producer blocked forever)
-	ufDone := make(chan struct{})
-	go func() { userFns.Wait(); close(ufDone) }()
-	select {
-	case <-ufDone:
-	case <-time.After(20 * time.Second):
-		t.Fatalf("STUCK USER FUNCTION: a generator/mapper/reducer/producer is still blocked inside the library 20 s after the call returned (outcome %+v); plan: %v\ncore/mr goroutines:\n%s", o, p, dump(mrGoroutines(), baseline))
+	// the caller's producer (MapReduceChan) must be able to finish: the library has to drain the source
+	if p.entry == "MapReduceChan" {
+		select {
+		case <-prodDone:
+		case <-time.After(20 * time.Second):
+			t.Fatalf("STUCK PRODUCER: the goroutine feeding MapReduceChan's source is still blocked 20 s after the call returned (outcome %+v): the source was not drained; plan: %v\ncore/mr goroutines:\n%s", o, p, dump(mrGoroutines(), baseline))
+		}
 	}
-	// leak check: once the user functions have returned no goroutine started by the call remains
-	deadline := time.Now().Add(5 * time.Second)
+	// leak check: every user function runs on a goroutine with a core/mr frame, so "no such goroutine
+	// left" covers both "user functions could finish" (none is stuck inside the library) and "nothing
+	// started by the call remains".  All gates are open; jitter plans last at most a few ms.
+	deadline := time.Now().Add(10 * time.Second)
 	for {
 		left := newOnes(mrGoroutines(), baseline)
 		if len(left) == 0 {
 			break
 		}
 		if time.Now().After(deadline) {
-			t.Fatalf("LEAK: %d goroutine(s) started by the call are still alive 5 s after every user function returned (outcome %+v); plan: %v\n%s",
+			t.Fatalf("LEAK: %d goroutine(s) started by the call are still alive 10 s after it returned and every gate was opened (outcome %+v); plan: %v\n%s",
 				len(left), o, p, strings.Join(left, "\n\n"))
 		}
 		time.Sleep(300 * time.Microsecond)
